@@ -254,7 +254,7 @@ func panicSite(stack string) string {
 		if !seenPanic || strings.HasPrefix(l, "\t") || l == "" {
 			continue
 		}
-		if strings.HasPrefix(l, "runtime.") || strings.HasPrefix(l, "runtime/") || strings.HasPrefix(l, "verif/engine/vsched") ||
+		if strings.HasPrefix(l, "runtime.") || strings.HasPrefix(l, "runtime/") || strings.HasPrefix(l, "verif/engine/vsched.") || strings.HasPrefix(l, "verif/engine/vsched/") ||
 			strings.HasPrefix(l, "reflect.") || strings.HasPrefix(l, "encoding/binary.") {
 			continue
 		}
